@@ -1194,13 +1194,18 @@ int32 matrixDtlsGetOutdata(ssl_t *ssl, unsigned char **buf)
         }
 
         /* A true flight resend is needed */
-        if ((rc = dtlsResendFlight(ssl, &tmp)) < 0)
+        rc = dtlsResendFlight(ssl, &tmp);
+        /* The flight encoder may have replaced the buffer (or lost it to an
+           allocation failure) also when it fails: never keep the old
+           pointer. */
+        ssl->outbuf = tmp.buf;
+        ssl->outsize = tmp.buf ? tmp.size : 0;
+        if (rc < 0)
         {
+            ssl->outlen = 0;
             return rc;
         }
-        ssl->outbuf = tmp.buf;
         ssl->outlen = tmp.end - tmp.start;
-        ssl->outsize = tmp.size;
     }
 
 /*
